@@ -187,6 +187,23 @@ def unassignable(rep, tier):
     rep.notes["unassignable_target_programs"] = len(items)
 
 
+def wide_statements():
+    """statements whose operand counts sit at the edge of what one instruction can say (a call with 255 / 256
+    arguments, literals with 255 / 256 / 257 elements) inside a loop: accepted or refused, never out of balance"""
+    out = []
+    pre = [OBS_DECL]
+    inc = expr(asg(ident("c"), bin_("+", ident("c"), I(1))))
+    for n in (255, 256):
+        f = fndef("wide", ["p%d" % i for i in range(n)], [expr(ident("p0"))])
+        last = {"t": "fn", "n": "", "ps": [], "body": [expr(I(4))]}
+        body = [inc, expr(call("wide", *([I(i % 5) for i in range(n - 1)] + [last]))), obs(ident("c"))]
+        out.append(("wide call-args=%d" % n, pre + [f, let("c", I(0)), while_(bin_("<", ident("c"), I(3)), body), obs(I(77))]))
+    for n in (255, 256, 257):
+        body = [inc, expr(arr(*[I(i % 5) for i in range(n)])), let("m", map_(*[(I(i), I(i)) for i in range(n)])), obs(ident("c"))]
+        out.append(("wide literals=%d" % n, pre + [let("c", I(0)), while_(bin_("<", ident("c"), I(3)), body), obs(I(77))]))
+    return out
+
+
 def long_runs(n):
     """loop bodies executed n times (sparse tracing)"""
     out = []
@@ -233,6 +250,7 @@ def run(rep, tier, seed):
         tails = [t for k, t in enumerate(tails) if "at=top" in t["tag"] or k % 4 == 1]
     ctrl = ctrl + tails
     ctrl += [{"id": "d" + tag, "prog": vmtrace.add_markers(prog), "tag": tag} for tag, prog in dollar_programs()]
+    ctrl += [{"id": "w" + tag, "prog": vmtrace.add_markers(prog), "tag": tag} for tag, prog in wide_statements()]
     recs = vmtrace.record(items + ctrl, widths, mode=1)
     longs = [{"id": "L" + tag, "prog": vmtrace.add_markers(prog), "tag": tag}
              for tag, prog in long_runs(10000 if tier == "thorough" else 2000)]
